@@ -160,6 +160,14 @@ Theorem C07_blank_after_function_name_rejected : forall b w,
 Proof. exact match_blank_rejected. Qed.
 Print Assumptions C07_blank_after_function_name_rejected.
 
+(* inside the brackets of a singular query in a comparison: $[?@[<blank> ... ]=..., for every bracketed selection with
+   any layout whose first character after '[' is blank, and whatever follows the '=' *)
+Theorem C07_blank_in_singular_bracket_rejected : forall b b0 s1 l blast rest,
+  blank_b b = true -> lbracket_ok (b :: b0) s1 l blast ->
+  parse_query (36%N :: 91%N :: 63%N :: 64%N :: lbracket_text (b :: b0) s1 l blast ++ 61%N :: rest) = PErr.
+Proof. exact blank_in_singular_bracket_rejected. Qed.
+Print Assumptions C07_blank_in_singular_bracket_rejected.
+
 (* ---- ill-typed function calls, at string level.  The grammar accepts every call whatever the types of its arguments;
    TestFunction::try_new and the position checks of parser.rs refuse.  For EVERY call f of the five RFC functions over
    plain selectors whose arguments are themselves well-formed (RejectTyping.fn_refused): an argument of the wrong type
